@@ -164,6 +164,20 @@ def gen_expr(rng, ids, depth=3, size=32):
         if rng.random() < 0.5:
             inner = ['O', rng.choice(['+', '^', '|']), [inner, gen_expr(rng, ids, depth - 1)]]
         return ['O', op, [inner, r_int(rng.choice([0, 1, 4, 8, 16, 31, 32]))]]
+    if k < 0.70:
+        # adjacent slices of ONE source (merge rule of the simplifier), plus another piece
+        src = rng.choice(ids)
+        cuts = sorted(rng.sample([8, 16, 24], rng.choice([1, 2])))
+        bounds = [0] + cuts + [32]
+        slots = []
+        for a, b in zip(bounds, bounds[1:]):
+            if rng.random() < 0.75:
+                slots.append([['S', src, a, b], a, b])
+            elif (b - a) in (8, 16):
+                slots.append([r_int(rng.choice(BOUNDARY), b - a), a, b])
+            else:
+                slots.append([['S', rng.choice(ids), a, b], a, b])
+        return ['C', slots]
     if k < 0.75:
         # compose of a low part and a high part
         cut = rng.choice([8, 16])
